@@ -125,6 +125,33 @@ func genMsgAlg(r *rand.Rand, n int) []string {
 			k2 := genMsgKey(r, other, false)
 			out = append(out, p2.consumeLine(p2.data, p2.ext, []string{k2.pub}))
 		}
+		// (e) fixed slots, every (kind, algorithm) pair in turn: a hand-built message labelled with an identifier that is not
+		// the key's — a sibling of it, or one the library does not implement — and authenticated by the key: refused
+		if i%3 == 2 {
+			type pair struct {
+				kind string
+				alg  int
+			}
+			var pairs []pair
+			for _, kd := range []string{"sign", "sign1", "mac0", "encrypt0"} {
+				for _, a2 := range algsForKind(kd) {
+					pairs = append(pairs, pair{kd, a2})
+				}
+			}
+			pr := pairs[labelPairSeq%len(pairs)]
+			labelPairSeq++
+			labels := append(append([]int{}, confusableAlgs[pr.alg]...), unimplementedAlgs...)
+			label := labels[labelSeq[pr.alg]%len(labels)]
+			labelSeq[pr.alg]++
+			k2 := genMsgKey(r, pr.alg, false)
+			if !isIn(pr.alg, sigAlgs) {
+				kb2 := randBytes(r, keySizeOf(pr.alg))
+				k2 = msgKey{alg: pr.alg, priv: symKeyTok(pr.alg, kb2), pub: symKeyTok(pr.alg, kb2)}
+			}
+			if lp, ok := labelledMsg(r, pr.kind, k2, label); ok {
+				out = append(out, lp.consumeLine(lp.data, lp.ext, lp.pubKeys()))
+			}
+		}
 		// (d) a message without a protected alg: the key's algorithm alone decides
 		p3 := buildProduce(r, kind, mode, payloadTok(r, mode, false), "{ }", "{ }", p2.ext, keys)
 		out = append(out, p3.line)
@@ -134,6 +161,66 @@ func genMsgAlg(r *rand.Rand, n int) []string {
 	}
 	return out
 }
+
+// labelledMsg: a one-layer message (or a COSE_Sign with one signature) whose protected bucket names `label`, an algorithm
+// identifier the key does not have, authenticated by the key over exactly that bucket — the primitive would accept it
+func labelledMsg(r *rand.Rand, kind string, k msgKey, label int) (*producedMsg, bool) {
+	kk := keyFromToks(strings.Fields(k.priv))
+	payload := randBytes(r, 1+r.Intn(40))
+	bucket := (&cnode{mt: 5, kids: []*cnode{{mt: 0, n: 1}, intNode(int64(label))}}).emit(nil, r, nil)
+	uk := []*cnode{}
+	if len(k.kid) > 0 {
+		uk = append(uk, &cnode{mt: 0, n: 4}, &cnode{mt: 2, b: k.kid})
+	}
+	var members []*cnode
+	switch kind {
+	case "sign1", "sign":
+		s, err := kk.Signer()
+		if err != nil {
+			return nil, false
+		}
+		if kind == "sign1" {
+			sig, _ := s.Sign(encStructure("Signature1", bucket, []byte{}, payload))
+			members = []*cnode{{mt: 2, b: bucket}, {mt: 5, kids: uk}, {mt: 2, b: payload}, {mt: 2, b: sig}}
+		} else {
+			sig, _ := s.Sign(encStructure("Signature", []byte{}, bucket, []byte{}, payload))
+			members = []*cnode{{mt: 2, b: []byte{}}, {mt: 5}, {mt: 2, b: payload},
+				{mt: 4, kids: []*cnode{{mt: 4, kids: []*cnode{{mt: 2, b: bucket}, {mt: 5, kids: uk}, {mt: 2, b: sig}}}}}}
+		}
+	case "mac0":
+		m, err := kk.MACer()
+		if err != nil {
+			return nil, false
+		}
+		tag, _ := m.MACCreate(encStructure("MAC0", bucket, []byte{}, payload))
+		members = []*cnode{{mt: 2, b: bucket}, {mt: 5, kids: uk}, {mt: 2, b: payload}, {mt: 2, b: tag}}
+	case "encrypt0":
+		e, err := kk.Encryptor()
+		if err != nil {
+			return nil, false
+		}
+		iv := randBytes(r, e.NonceSize())
+		ct, err := e.Encrypt(iv, payload, encStructure("Encrypt0", bucket, []byte{}))
+		if err != nil {
+			return nil, false
+		}
+		uk = append(uk, &cnode{mt: 0, n: 5}, &cnode{mt: 2, b: iv})
+		members = []*cnode{{mt: 2, b: bucket}, {mt: 5, kids: uk}, {mt: 2, b: ct}}
+	default:
+		return nil, false
+	}
+	msg := append(append([]byte{}, kindPrefix[kind]...), (&cnode{mt: 4, kids: members}).emit(nil, r, nil)...)
+	return &producedMsg{kind: kind, mode: "raw", ext: hxOpt(nil), keys: []msgKey{k}, data: msg, ok: true}, true
+}
+
+// identifiers a reader might confuse with the key's algorithm: the fully-specified and sibling identifiers of each
+// signature algorithm (RFC 9864, Ed448, secp256k1), then identifiers the library does not implement at all
+var confusableAlgs = map[int][]int{
+	iana.AlgorithmEdDSA: {-53, -19}, iana.AlgorithmES256: {-9, -47}, iana.AlgorithmES384: {-51}, iana.AlgorithmES512: {-52},
+}
+var unimplementedAlgs = []int{-257, -39, -65535, 0, 35, -46, 8, -3}
+var labelSeq = map[int]int{}
+var labelPairSeq int
 
 var ivLenSeq int
 
@@ -199,6 +286,10 @@ func genMsgNonce(r *rand.Rand, n int) []string {
 				iv0[j] = 0
 			}
 			unprot = "{ int:5 b:" + hx(iv0) + " }"
+		case 8: // a Partial IV under a key whose Base IV is shorter than the nonce (lengths in turn); tampered with below
+			unprot = "{ int:6 b:" + hx(randBytes(r, 1+(i/9)%3)) + " }"
+			extra = []string{"int:5", "b:" + hx(randBytes(r, []int{ns - 1, 1, ns - 4, 4}[(i/9)%4]))}
+			k = msgKey{alg: alg, priv: symKeyTok(alg, kb, extra...), pub: symKeyTok(alg, kb, extra...)}
 		case 4: // the first message of a counter: an all-zero Partial IV under a key with a Base IV (nonce = Base IV)
 			unprot = "{ int:6 b:" + hx(make([]byte, 1+(i/9)%2)) + " }"
 			extra = []string{"int:5", "b:" + hx(randBytes(r, ns))}
